@@ -131,6 +131,37 @@ def same_object(ctx, n, first, dt=0.01):
                           [ctx.eq(asig.displacement[i], d0[i], sc) for i in range(n)])), first)
 
 
+OPS = {
+    'zero_residual_velocity_tz': lambda s_: s_.set_zero_residual_velocity(timezone=(0.2, 0.6)),
+    'zero_residual_displacement': lambda s_: s_.set_zero_residual_displacement(),
+    'zero_residual_disp_and_velo': lambda s_: s_.set_zero_residual_displacement_and_velocity(),
+    'rebase_displacement': lambda s_: s_.rebase_displacement(),
+    'add_constant': lambda s_: s_.add_constant(0.75),
+    'running_average': lambda s_: s_.running_average(3),
+    'reset_values_own_array': lambda s_: s_.reset_values(s_.values),
+}
+
+
+def after_operation(ctx, n, op, dt=0.1):
+    """measures of a long-lived object: velocity, PGV and one measure were read, then the record was changed by a public
+    operation; every measure must equal the measure of a fresh object holding the same values."""
+    a = ctx.arr('a', n, -30.0, 30.0)
+    lib = ctx.lib
+    asig = lib.AccSignal(a, dt)
+    _ = asig.velocity, asig.displacement, asig.pgv
+    _measure(ctx, asig, 'isv')
+    OPS[op](asig)
+    fresh = lib.AccSignal(asig.values.copy(), dt)
+    sc = (30.0 ** 2) * (10.0 * n) ** 3
+    ok = []
+    for which in ALL_MEASURES:
+        got = _measure(ctx, asig, which)
+        ref = _measure(ctx, fresh, which)
+        ok.append(S.sym_and(len(got) == len(ref), *[ctx.eq(got[i], ref[i], sc) for i in range(min(len(got), len(ref)))]))
+    ctx.observe('isv', _measure(ctx, asig, 'isv'))
+    ctx.claim('measures_after_an_operation_equal_fresh_object', S.sym_and(*ok), op)
+
+
 def scaling(ctx, n, which, dt=None, alpha=None):
     a = ctx.arr('a', n, -30.0, 30.0)
     dt = _dt(ctx, dt)
@@ -193,7 +224,7 @@ def cav_dp(ctx, dt, seconds):
               S.sym_and(ctx.le(total - slack, final, sc), ctx.le(final, total, sc)))
 
 
-SCENARIOS = {'definition': definition, 'scaling': scaling, 'zero_padding': zero_padding, 'cav_dp': cav_dp, 'same_object': same_object}
+SCENARIOS = {'definition': definition, 'scaling': scaling, 'zero_padding': zero_padding, 'cav_dp': cav_dp, 'same_object': same_object, 'after_operation': after_operation}
 SELFTEST_PER_SCENARIO = 4
 
 
@@ -214,6 +245,8 @@ def obligations(tier, seed):
     for which in ALL_MEASURES:
         for n in ((3,) if q else (3, 5)):
             yield Ob('definition', {'n': n, 'which': which, 'dt': 0.01, 'kind': 'i'}, query_ms=60000)
+    for op in OPS:
+        yield Ob('after_operation', {'n': 8, 'op': op}, query_ms=60000)
     for first in ALL_MEASURES:
         for n in ((3,) if q else (3, 6)):
             yield Ob('same_object', {'n': n, 'first': first}, query_ms=60000)
